@@ -175,6 +175,7 @@ def main(prop, tier, seed, replay_path=None):
                              family=lambda r, kk: gc.family_f3(r, kk, nmin=4, nmax=8)))
     try:
         sout, viol, allcharts, samples, mc2 = interp_check.run_stage('C14', tier, seed, stage, rng)
+        sout.pop('cross_samples', None)
     except interp_check.Machinery as e:
         print('MACHINERY-FAILURE property=C14: %s' % e)
         return 2
